@@ -168,7 +168,15 @@ pub fn work_dir() -> PathBuf {
         }
         let shm = PathBuf::from("/dev/shm");
         let probe = shm.join(format!("rcv-probe-{}", std::process::id()));
-        if shm.is_dir() && std::fs::create_dir_all(&probe).is_ok() {
+        // only when it is roomy (>= 4 GiB free): C19 writes tens of MB per case and worker, and a
+        // full tmpfs would surface as spurious I/O failures
+        let roomy = {
+            let mut st: libc::statvfs = unsafe { std::mem::zeroed() };
+            let c = std::ffi::CString::new("/dev/shm").unwrap();
+            let rc = unsafe { libc::statvfs(c.as_ptr(), &mut st) };
+            rc == 0 && (st.f_bavail as u64).saturating_mul(st.f_frsize as u64) >= 4u64 << 30
+        };
+        if roomy && shm.is_dir() && std::fs::create_dir_all(&probe).is_ok() {
             let _ = std::fs::remove_dir_all(&probe);
             shm.join("rcv-work")
         } else {
